@@ -85,7 +85,8 @@ def items(validator, items, instance, schema):
 def additionalItems(validator, aI, instance, schema):
     if (
         not validator.is_type(instance, "array") or
-        validator.is_type(schema.get("items", {}), "object")
+        validator.is_type(schema.get("items", {}), "object") or
+        validator.is_type(schema.get("items", {}), "boolean")
     ):
         return
 
